@@ -493,8 +493,13 @@ func (sess *session) Create(ctx context.Context, parent Fid, name string,
 		next := SFid{Ent: ent}
 		err = openLocked(ctx, &next, mode)
 		if err != nil { // Oops: Create has already succeeded
-						// - so now we have to delete everthing.
-			sess.delRef(ctx, parent, false)
+			// - so now we have to delete everthing.
+			// The parent handle was consumed by Create and we already
+			// hold the fid's lock (delRef would deadlock on it): unbind
+			// the fid and release the new entry.
+			sess.refs.Delete(parent)
+			ref.link(ent)
+			delRefAction(ctx, ref, false)
 			// Note: ignoring possible multiple errors
 			return fail(err.Error())
 		}
